@@ -56,13 +56,16 @@ VARIABLES
   \* ---- last step (write-only; hidden by the VIEW of the exhaustive configs)
   lop,      \* the operation just performed, with the facts of its pre-state the clauses need
   recv,     \* handler id -> events delivered to it during the step
+  \* ---- environment: the resource (0 = none) that discovery does not serve yet; it becomes discoverable after a
+  \* subscribe to it has failed
+  late,
   \* ---- control
   n, hist
 
 ghost == <<st, sres, hinfo, store, rvc, usedO>>
 code  == <<fRef, fShared, inf, sgen, reg, timers, lists>>
-vars  == <<st, sres, hinfo, store, rvc, usedO, fRef, fShared, inf, sgen, reg, timers, lists, lop, recv, n, hist>>
-View  == <<st, sres, hinfo, store, rvc, usedO, fRef, fShared, inf, sgen, reg, timers, lists, n>>
+vars  == <<st, sres, hinfo, store, rvc, usedO, fRef, fShared, inf, sgen, reg, timers, lists, lop, recv, late, n, hist>>
+View  == <<st, sres, hinfo, store, rvc, usedO, fRef, fShared, inf, sgen, reg, timers, lists, late, n>>
 
 Range(f) == { f[i] : i \in DOMAIN f }
 Zero     == [o \in Objs |-> 0]
@@ -102,6 +105,7 @@ lists0 == [r \in Res |-> 0]
 Init == /\ st = st0 /\ sres = sres0 /\ hinfo = <<>> /\ store = store0 /\ rvc = 0 /\ usedO = usedO0
         /\ fRef = fRef0 /\ fShared = fSh0 /\ inf = inf0 /\ sgen = sgen0 /\ reg = reg0
         /\ timers = {} /\ lists = lists0 /\ lop = NoOp /\ recv = <<>> /\ n = 0 /\ hist = <<>>
+        /\ late \in (IF AddEv THEN {0, NR} ELSE {0})
 
 \* ---- which operations make sense (the protocol of the API) ----------------------------
 \* Subscribe on a slot without a live subscription and without leftover handlers; add a
@@ -117,7 +121,11 @@ Canon(p) ==
     [] OTHER -> TRUE
 
 Pre(p) ==
-  /\ CASE p.t = "sub"   -> p.s \in Slots /\ p.r \in Res /\ st[p.s] \in {"none", "closed"} /\ SlotHs(p.s) = {}
+  /\ CASE p.t = "sub"   -> p.s \in Slots /\ p.r \in Res /\ st[p.s] \in {"none", "closed"} /\ SlotHs(p.s) = {} /\ p.r # late
+       \* a subscribe to the resource discovery does not know yet: it fails and leaves nothing behind; the resource becomes
+       \* discoverable right afterwards
+       [] p.t = "subx"  -> p.s \in Slots /\ p.r \in Res /\ p.r = late /\ st[p.s] \in {"none", "closed"} /\ SlotHs(p.s) = {}
+                           /\ (Beh => (st[p.s] = "none" => \A s2 \in Slots : s2 < p.s => st[s2] # "none"))
        [] p.t = "add"   -> p.s \in Slots /\ st[p.s] = "open" /\ Len(hinfo) < MaxH /\ p.h = Len(hinfo) + 1
        [] p.t = "addev" -> /\ p.s \in Slots /\ st[p.s] = "open" /\ Len(hinfo) < MaxH /\ p.h = Len(hinfo) + 1
                            /\ p.o \in Objs /\ p.rv > rvc
@@ -306,6 +314,9 @@ Do(p) ==
      \/ p.t \in {"oadd", "oupd", "odel"} /\ DoObj(p)
      \/ p.t = "tick"  /\ DoTick(p)
      \/ p.t = "final" /\ DoFinal(p)
+     \/ p.t = "subx"  /\ recv' = Quiet /\ UNCHANGED <<ghost, code>>           \* nothing changes, the state is observed
+                       /\ lop' = Lop(p, p.r, 0, FALSE, FALSE, lists[p.r], Zero)
+  /\ late' = IF p.t = "subx" THEN 0 ELSE late
   /\ n' = n + 1
   /\ hist' = IF Beh THEN Append(hist, Expect') ELSE hist
 
@@ -317,6 +328,7 @@ Ops ==
   \cup (IF Ticks THEN {Op("tick", 0, 0, 0, FALSE, h, 0) : h \in timers} ELSE {})
   \cup (IF AddEv THEN {Op("addev", s, 0, o, own, Len(hinfo) + 1, rvc + 1) : s \in Slots, o \in Objs, own \in BOOLEAN} ELSE {})
   \cup (IF AddEv THEN {Op("remev", s, 0, o, FALSE, 0, rvc + 1) : s \in Slots, o \in Objs} ELSE {})
+  \cup (IF AddEv THEN {Op("subx", s, NR, 0, FALSE, 0, 0) : s \in Slots} ELSE {})
 
 Next == n < MaxOps /\ \E p \in Ops : Do(p)
 Spec == Init /\ [][Next]_vars
@@ -392,5 +404,6 @@ C18_TimersOfLiveHandlers == \A h \in timers : ~hinfo[h].removed
 
 \* ---- scenario emission (Beh) ----------------------------------------------------------
 Emit == (Beh /\ n = MaxOps) =>
-          PrintT("SCN|" \o ToJson([ns |-> NS, nr |-> NR, no |-> NO, steps |-> hist]))
+          PrintT("SCN|" \o ToJson([ns |-> NS, nr |-> NR, no |-> NO, steps |-> hist,
+                                   late |-> \E i \in DOMAIN hist : hist[i].op.t = "subx"]))
 =============================================================================
